@@ -55,6 +55,7 @@ PLAN = {
         "packages": ["vnative"],
         "engines": [
             {"name": "n-times", "argv": [VNATIVE, "times", "--property", "C07"]},
+            {"name": "g-arms", "argv": VGEN + ["c08", "--property", "C07", "--only-times"]},
         ],
     },
     "C11": {
@@ -195,7 +196,7 @@ META = {
     "C07": {
         "level": "exploration",
         "design_ref": "DESIGN.md §4 C07",
-        "technique": "metamorphic property-based testing: generated sequences of injector lifetimes evaluating the same fake!(..., times: N) expression; each lifetime must behave as if it were the only one in its process (reference model counting from zero)",
+        "technique": "metamorphic property-based testing: generated sequences of injector lifetimes evaluating the same fake!(..., times: N) expression; each lifetime must behave as if it were the only one in its process (reference model counting from zero); the same relation over every `times` arm of macro_rules! fake found in the tree, each compiled as its own binary and driven through 2-3 generated lifetimes of one call site (Hypothesis)",
         "text": "3*10^3 (quick) / 2*10^5 (thorough) generated sequences of 2..8 lifetimes at one of 4 call sites, any number of calls in each lifetime, N changing between lifetimes, each sequence in a fresh process (so the case is the complete history of the site's static counter).",
         "note": NATIVE_NOTE + " Two installations of the same call site alive in the *same* injector share one static counter by construction; the statement speaks of earlier installations, and only those are generated.",
     },
